@@ -10,10 +10,9 @@
     over them.  [true] selects the two-key [on_close_flow] of fix d875ae5.
 
     A state is AT REST when the manager's output queue has been drained
-    ([sh_q = []]); [sreach] is reachability through events that end at rest.
-    (That the fuel of [drain] always suffices is not proved; the correspondence
-    run replays every e2e scenario through the same [shell_step] and would stall
-    visibly otherwise.) *)
+    ([sh_q = []]).  [drain_outputs_terminates]: the fuel [drain_fuel] gives the
+    drain loop always suffices, so every event ends at rest and [sreach] -- the
+    states reachable from a fresh session by any events -- are all at rest. *)
 From Coq Require Import List NArith Bool Arith Lia.
 From SV Require Import Common.Slab C19.Model C19.Proofs C19.Shell C19.ShellProofs.
 Import ListNotations.
@@ -21,15 +20,22 @@ Import ListNotations.
 Inductive sreach (hash : bool -> addr -> N) : shell -> Prop :=
 | sr_new c max_flows max_rx a : sreach hash (shell_new (mgr_new c max_flows max_rx) a)
 | sr_step sh now e sched ev :
-    sreach hash sh -> sh_q (fst (shell_step hash true sh now e sched ev)) = [] ->
-    sreach hash (fst (shell_step hash true sh now e sched ev)).
+    sreach hash sh -> sreach hash (fst (shell_step hash true sh now e sched ev)).
 
 Lemma sreach_GQ hash sh : sreach hash sh -> GQ sh /\ sh_q sh = [].
 Proof.
-  induction 1 as [c mf mrx a|sh now e sched ev Hr (HG & Hq) Hq'].
+  induction 1 as [c mf mrx a|sh now e sched ev Hr (HG & Hq)].
   - split; [apply GQ_new | reflexivity].
-  - split; [apply GQ_step; assumption | exact Hq'].
+  - split; [apply GQ_step; assumption | apply shell_step_at_rest; exact Hq].
 Qed.
+
+(** [drain_outputs] always runs to completion: whatever is queued, whatever the load
+    balancer and the kernel answer, the loop empties the manager's queue within the
+    fuel it is given (a SelectBackend adds at most one resolution or abort, an
+    OpenUpstream at most one abort, nothing else adds anything) *)
+Theorem drain_outputs_terminates :
+  forall hash tk sh sched now e, sh_q (fst (fst (full_drain hash tk sh sched now e))) = [].
+Proof. exact full_drain_completes. Qed.
 
 (** [upstream_sockets_balance]: under EVERY handler, whatever the manager, the
     load balancer and the kernel do (no reachability needed): sockets opened =
@@ -69,11 +75,13 @@ Proof. intros hash sh now tok s p i d p' H. destruct (sreach_GQ hash sh H). appl
 (** [close_all_flows] closes every upstream socket: none is open, opened = closed *)
 Theorem close_all_flows_leaks_no_socket :
   forall hash sh now e sched, sreach hash sh ->
-    sh_q (fst (shell_step hash true sh now e sched ECloseAll)) = [] ->
     sh_socks (fst (shell_step hash true sh now e sched ECloseAll)) = [] /\
     sh_opened (fst (shell_step hash true sh now e sched ECloseAll)) =
     sh_closed (fst (shell_step hash true sh now e sched ECloseAll)).
-Proof. intros hash sh now e sched H. destruct (sreach_GQ hash sh H). apply close_all_no_socket; assumption. Qed.
+Proof.
+  intros hash sh now e sched H. destruct (sreach_GQ hash sh H) as (HG & Hq).
+  apply close_all_no_socket; auto. apply shell_step_at_rest. exact Hq.
+Qed.
 
 (** [WriteQueue]: one drain puts on the wire an in-order, duplicate-free selection
     of a prefix of the queue (hard errors drop, the first WouldBlock stops) and
